@@ -58,6 +58,10 @@ type oeCase struct {
 	Carrier string `json:"carrier"`
 	Hops    int    `json:"hops"`
 	Err     oeNode `json:"err"`
+	// listing carriers: the backend iterator yields NItems items and THEN the error; Page is
+	// the ListPageSize of every client of the stack (0: the default of 1000)
+	NItems int `json:"nitems"`
+	Page   int `json:"page"`
 }
 
 var oeStd = []ociregistry.Error{
@@ -316,10 +320,11 @@ type oeObs struct {
 	Code    string   `json:"code"`
 	Detail  string   `json:"detail"`
 	Msg     []oeTok  `json:"msg"`
+	Items   []int    `json:"items"` // listing carriers: the items delivered before the error (1, 2, ...; 0 = not an item of the case)
 }
 
 func (v *oeVocab) observe(err error) oeObs {
-	o := oeObs{Is: []string{}, Detail: "none", Msg: []oeTok{}}
+	o := oeObs{Is: []string{}, Detail: "none", Msg: []oeTok{}, Items: []int{}}
 	if err == nil {
 		return o
 	}
@@ -416,8 +421,9 @@ func (v *oeVocab) wire(t *oeTap) oeWire {
 // the carrier call returned at this level.
 type oeObserver struct {
 	ociregistry.Interface
-	got  error
-	seen bool
+	got   error
+	seen  bool
+	items []int
 }
 
 func (o *oeObserver) rec(err error) error { o.got, o.seen = err, true; return err }
@@ -495,6 +501,8 @@ func oeRecSeq[T any](o *oeObserver, it ociregistry.Seq[T]) ociregistry.Seq[T] {
 		it(func(x T, err error) bool {
 			if err != nil {
 				o.rec(err)
+			} else {
+				o.items = append(o.items, oeItemIndex(x))
 			}
 			return yield(x, err)
 		})
@@ -502,7 +510,44 @@ func oeRecSeq[T any](o *oeObserver, it ociregistry.Seq[T]) ociregistry.Seq[T] {
 }
 
 // oeBackend is a registry every method of which returns fail(<its own name>).
-func oeBackend(fail func(method string) error) ociregistry.Interface {
+var oeItemNames = []string{"i1", "i2", "i3"}
+
+func oeItemDesc(i int) ociregistry.Descriptor {
+	return ociregistry.Descriptor{MediaType: "application/vnd.oci.image.manifest.v1+json", Digest: digest.FromString(oeItemNames[i]), Size: int64(10 + i)}
+}
+
+// oeItemIndex maps a listed item back to its index 1.. (0: not an item the harness supplied).
+func oeItemIndex(x any) int {
+	for i, n := range oeItemNames {
+		switch x := x.(type) {
+		case string:
+			if x == n {
+				return i + 1
+			}
+		case ociregistry.Descriptor:
+			if x.Digest == oeItemDesc(i).Digest && x.Size == oeItemDesc(i).Size {
+				return i + 1
+			}
+		}
+	}
+	return 0
+}
+
+// oeItemsThenErr yields the first n items that come after start, and then the error.
+func oeItemsThenErr[T any](n int, start string, item func(i int) T, fail func() error) ociregistry.Seq[T] {
+	return func(yield func(T, error) bool) {
+		for i := 0; i < n && i < len(oeItemNames); i++ {
+			if oeItemNames[i] > start {
+				if !yield(item(i), nil) {
+					return
+				}
+			}
+		}
+		yield(*new(T), fail())
+	}
+}
+
+func oeBackend(nitems func() int, fail func(method string) error) ociregistry.Interface {
 	type D = ociregistry.Digest
 	type Desc = ociregistry.Descriptor
 	return &ociregistry.Funcs{
@@ -538,28 +583,29 @@ func oeBackend(fail func(method string) error) ociregistry.Interface {
 		DeleteManifest_: func(ctx context.Context, repo string, d D) error { return fail("DeleteManifest") },
 		DeleteTag_:      func(ctx context.Context, repo string, tag string) error { return fail("DeleteTag") },
 		Repositories_: func(ctx context.Context, start string) ociregistry.Seq[string] {
-			return ociregistry.ErrorSeq[string](fail("Repositories"))
+			return oeItemsThenErr(nitems(), start, func(i int) string { return oeItemNames[i] }, func() error { return fail("Repositories") })
 		},
 		Tags_: func(ctx context.Context, repo, start string) ociregistry.Seq[string] {
-			return ociregistry.ErrorSeq[string](fail("Tags"))
+			return oeItemsThenErr(nitems(), start, func(i int) string { return oeItemNames[i] }, func() error { return fail("Tags") })
 		},
 		Referrers_: func(ctx context.Context, repo string, d D, at string) ociregistry.Seq[Desc] {
-			return ociregistry.ErrorSeq[Desc](fail("Referrers"))
+			return oeItemsThenErr(nitems(), "", oeItemDesc, func() error { return fail("Referrers") })
 		},
 	}
 }
 
 type oeStack struct {
 	cur     error
+	nitems  int
 	reached []string
 	obs     []*oeObserver // obs[j-1]: level j (j hops above the backend)
 	taps    []*oeTap
 	servers []*httptest.Server
 }
 
-func oeNewStack(hops int) (*oeStack, error) {
+func oeNewStack(hops, page int) (*oeStack, error) {
 	st := &oeStack{}
-	var below ociregistry.Interface = oeBackend(func(method string) error {
+	var below ociregistry.Interface = oeBackend(func() int { return st.nitems }, func(method string) error {
 		st.reached = append(st.reached, method)
 		return st.cur
 	})
@@ -571,7 +617,7 @@ func oeNewStack(hops int) (*oeStack, error) {
 		st.servers = append(st.servers, srv)
 		u, _ := url.Parse(srv.URL)
 		tap := &oeTap{rt: &http.Transport{MaxIdleConnsPerHost: 4}}
-		c, err := ociclient.New(u.Host, &ociclient.Options{Insecure: true, Transport: tap})
+		c, err := ociclient.New(u.Host, &ociclient.Options{Insecure: true, Transport: tap, ListPageSize: page})
 		if err != nil {
 			return nil, err
 		}
@@ -668,25 +714,28 @@ func oeCall(ctx context.Context, top ociregistry.Interface, carrier string, hops
 }
 
 func (st *oeStack) run(c *oeCase) (e ev) {
-	e = ev{"op": "case", "id": c.ID, "carrier": c.Carrier, "hops": c.Hops, "err": c.Err}
+	e = ev{"op": "case", "id": c.ID, "carrier": c.Carrier, "hops": c.Hops, "err": c.Err, "nitems": c.NItems, "page": c.Page}
 	defer func() {
 		if r := recover(); r != nil {
-			e = ev{"op": "panic", "id": c.ID, "carrier": c.Carrier, "hops": c.Hops, "err": c.Err, "panic": fmt.Sprint(r)}
+			e = ev{"op": "panic", "id": c.ID, "carrier": c.Carrier, "hops": c.Hops, "err": c.Err, "nitems": c.NItems, "page": c.Page, "panic": fmt.Sprint(r)}
 		}
 	}()
 	v := oeNewVocab()
 	v.addTree(&c.Err)
 	st.cur = oeBuild(&c.Err)
 	st.reached = nil
+	st.nitems = c.NItems
 	for j := range st.obs {
-		st.obs[j].got, st.obs[j].seen = nil, false
+		st.obs[j].got, st.obs[j].seen, st.obs[j].items = nil, false, nil
 		st.taps[j].reset()
 	}
 	oeCall(context.Background(), st.obs[c.Hops-1], c.Carrier, c.Hops)
 	lv := []oeObs{v.observe(st.cur)}
 	wire := []oeWire{}
 	for j := 0; j < c.Hops; j++ {
-		lv = append(lv, v.observe(st.obs[j].got))
+		o := v.observe(st.obs[j].got)
+		o.Items = append(o.Items, st.obs[j].items...)
+		lv = append(lv, o)
 		wire = append(wire, v.wire(st.taps[j]))
 	}
 	reached := st.reached
@@ -719,6 +768,19 @@ func oeRandText(r *rand.Rand) string {
 	}
 }
 
+// custom codes that differ from a tabled code (or UNKNOWN) only by case; the same list is the
+// table CaseVariants of spec/OciError.tla (their code prefix text is the tabled code's)
+var oeCaseVariants = []string{"denied", "Blob_Unknown", "blob_upload_invalid", "Range_Invalid", "name_unknown", "Unsupported", "unknown"}
+
+func oeCanonCode(c string) string {
+	for _, v := range oeCaseVariants {
+		if v == c {
+			return strings.ToUpper(c)
+		}
+	}
+	return c
+}
+
 func oeRandCode(r *rand.Rand) string {
 	switch x := r.Intn(20); {
 	case x < 11:
@@ -729,6 +791,8 @@ func oeRandCode(r *rand.Rand) string {
 		return ""
 	case x < 15:
 		return "UNKNOWN"
+	case x < 17:
+		return oeCaseVariants[r.Intn(len(oeCaseVariants))]
 	}
 	letters := "ABCDEFGHIJKLMNOPQRSTUVWXYZ"
 	n := 2 + r.Intn(8)
@@ -760,7 +824,8 @@ func oeRandMsg(r *rand.Rand, lo int) []oeTok {
 		case x < 7:
 			out = append(out, oeTok{"S", strconv.Itoa(oeRandStatus(r))})
 		case x < 9:
-			out = append(out, oeTok{"C", oeRandCode(r)})
+			// a prefix token is named by its text: a case variant's prefix is the tabled code's
+			out = append(out, oeTok{"C", oeCanonCode(oeRandCode(r))})
 		case x < 10:
 			out = append(out, oeTok{"E", ""})
 		case x < 11:
@@ -887,7 +952,7 @@ func oeCmd(args []string) error {
 	enc := json.NewEncoder(bw)
 	enc.SetEscapeHTML(false)
 	enc.Encode(oeHeader())
-	stacks := map[int]*oeStack{}
+	stacks := map[[2]int]*oeStack{}
 	defer func() {
 		for _, s := range stacks {
 			s.close()
@@ -898,13 +963,17 @@ func oeCmd(args []string) error {
 		if c.Hops < 1 || c.Hops > 8 {
 			return fmt.Errorf("case %d: bad hop count %d", c.ID, c.Hops)
 		}
-		st := stacks[c.Hops]
+		if c.NItems < 0 || c.NItems > len(oeItemNames) || c.Page < 0 {
+			return fmt.Errorf("case %d: bad nitems/page %d/%d", c.ID, c.NItems, c.Page)
+		}
+		key := [2]int{c.Hops, c.Page}
+		st := stacks[key]
 		if st == nil {
 			var err error
-			if st, err = oeNewStack(c.Hops); err != nil {
+			if st, err = oeNewStack(c.Hops, c.Page); err != nil {
 				return err
 			}
-			stacks[c.Hops] = st
+			stacks[key] = st
 		}
 		enc.Encode(st.run(c))
 		total++
@@ -951,6 +1020,10 @@ func oeCmd(args []string) error {
 			enc.Encode(ev{"op": "reset", "group": fmt.Sprintf("random-%d-%d", *seed, i / *group)})
 		}
 		c := &oeCase{ID: 1000000 + i, Carrier: oeCarriers[rnd.Intn(len(oeCarriers))], Hops: *hops, Err: oeRandTree(rnd, 1+rnd.Intn(*depth))}
+		if c.Carrier == "Repositories" || c.Carrier == "Tags" || c.Carrier == "Referrers" {
+			c.NItems = rnd.Intn(4)
+			c.Page = [...]int{0, 0, 1, 2, 3}[rnd.Intn(5)]
+		}
 		if err := runCase(c); err != nil {
 			return err
 		}
